@@ -487,6 +487,14 @@ def _correspond_case(ck, op, call, sp, ans, stats):
         stats["type_proto_compared"] += len(sp["proto_obs"]["to"]) + len(sp["proto_obs"]["from"])
         _cmp("Type._to_onnx of the operand types (field presence included)", sp["proto_obs"]["to"], ans["to_proto"], d)
         _cmp("Type._from_onnx of the TypeProtos ONNX answered with", sp["proto_obs"]["from"], ans.get("from_proto", []), d)
+    # ONNX's answer for the ml operators whose inference spox replaces vs the model's onnxMlElem
+    if "ml_onnx" in ans and not ans["untyped"]:
+        o = L.oracle_run(op, call)
+        if not o["reject"] and o["types"] and isinstance(o["types"][0], dict) and "t" in o["types"][0]:
+            stats["ml_onnx_compared"] += 1
+            x = call["vars"][call["args"][0]]["ty"]
+            exp_shape = x["s"] if op.name == "Binarizer" else None
+            _cmp("ONNX's answer for an ml operator (element type, shape)", [o["types"][0]["t"], o["types"][0]["s"]], [ans["ml_onnx"], exp_shape], d)
     # loop / scan / sequence_map / if_: the types the body's formal arguments were declared with
     if "formals" in ans and sp.get("node") and "formals" in sp["node"]:
         stats["body_formals_compared"] += 1
@@ -906,7 +914,7 @@ def run(ck: core.Check):
         ck.cov["modelled_functions"] = {"error": f"{type(e).__name__}: {e}"[:200]}
     res = ck.lean(["SpoxModel.Props.C05"], audit="SpoxModel.Audit.C05")
     if ck.thorough:
-        ck.leanchecker(["SpoxModel.Props.C05"])
+        ck.leanchecker(["SpoxModel.Props.C05", "SpoxModel.Model.MLOnnx", "SpoxModel.Drv.C05"])
     ops = L.load_vocabulary()
     by_key = {o.key: o for o in ops}
     rng = ck.rng
